@@ -468,6 +468,96 @@ class Gen:
         sc.vars[v] = ("n", True)
         return form, nm, "f0"
 
+    # ------------------------------------------------------------------ nested loops creating closures at every level
+    def nested_closure_loops(self, sc, d):
+        """2-3 nested loops (while / for / each / loop with one or two bindings / seq); closures are created at every
+        nesting level (always in the innermost), capture loop variables and per-iteration defs / vars of EVERY enclosing
+        level, mutate captured vars, are stored in one array that lives outside all loops, and are called in later
+        iterations as well as after the loops.  Exercises the loop-as-function rewrite of nested loops."""
+        r = self.r
+        self.features.add("nested-closure-loops")
+        G = self.fresh("g", sc, noshadow=True)
+        self.reserved.add(G)
+        maxlevel = 3 if r.chance(1, 4) else 2
+        loop = self._nest(sc, d + 1, G, 1, maxlevel, [], [])
+        sc.vars[G] = ("fa", False)
+        tail = [S("each", "g_", G, S("emit", S("g_")))]
+        if r.chance(1, 3):
+            tail.append(S("each", "g_", G, S("emit", S("g_"))))
+        return S("upscope", S("def", G, Lit("arr", [])), loop, *tail)
+
+    def _closure(self, scope, d, caps, mcaps):
+        r = self.r
+        cs = Scope(scope, fn=True)
+        body = []
+        if mcaps and r.chance(1, 2):
+            v = r.choice(mcaps)
+            self.features.add("mutate-captured")
+            body.append(S("set", v, S("+", v, r.range(1, 3))))
+        picks = [Sym(x) for x in caps if r.chance(2, 3)] or [Sym(caps[-1])]
+        extra = self.n(cs, d + 2) if r.chance(1, 3) and not self.low(d) else r.range(0, 3)
+        body.append(S("+", *picks, *[Sym(v) for v in mcaps if r.chance(1, 2)], extra))
+        return S("fn", B(), *body)
+
+    def _nest(self, sc, d, G, level, maxlevel, caps, mcaps):
+        r = self.r
+        self.spend(4)
+        kind = r.choice(["while", "for", "each", "loop", "loop2", "seq"])
+        self.features.add("nest-" + kind)
+        inner = Scope(sc, loop=True)
+        caps = list(caps)
+        mcaps = list(mcaps)
+        k = 2 if (maxlevel == 3 or r.chance(1, 2)) else 3
+        i = self.fresh("i", inner, noshadow=True)
+        self.reserved.add(i)
+        inner.vars[i] = ("n", False)
+        caps.append(i)
+        j = None
+        if kind == "loop2":
+            j = self.fresh("j", inner, noshadow=True)
+            self.reserved.add(j)
+            inner.vars[j] = ("n", False)
+            caps.append(j)
+        body = []
+        if r.chance(1, 2):
+            dn = self.fresh("x", inner, noshadow=True)
+            self.reserved.add(dn)
+            body.append(S("def", dn, S("+", S("*", i, 10), r.range(0, 5))))
+            inner.vars[dn] = ("n", False)
+            caps.append(dn)
+        if r.chance(1, 2):
+            vn = self.fresh("v", inner, noshadow=True)
+            self.reserved.add(vn)
+            body.append(S("var", vn, S("+", i, r.choice([100, 200, 1000]))))
+            inner.vars[vn] = ("n", True)
+            mcaps.append(vn)
+        if r.chance(1, 3):
+            body.append(S("each", "g_", G, S("emit", S("g_"))))          # closures of earlier iterations, called later
+        if level < maxlevel and r.chance(1, 2):
+            body.append(S("array/push", G, self._closure(inner, d, caps, mcaps)))
+        if level < maxlevel and not (kind == "loop2" and level + 1 >= maxlevel and r.chance(1, 2)):
+            body.append(self._nest(inner, d + 1, G, level + (2 if kind == "loop2" else 1), maxlevel, caps, mcaps))
+        else:
+            body.append(S("array/push", G, self._closure(inner, d, caps, mcaps)))
+        if r.chance(1, 4):
+            body.append(S("emit", Sym(r.choice(caps))))
+        if r.chance(1, 5):
+            self.features.add("break")
+            body.append(S("if", S(">", i, r.range(0, 2)), S("break")))
+        if kind == "while":
+            cnt = self.fresh("w", sc, noshadow=True)
+            self.reserved.add(cnt)
+            return S("upscope", S("var", cnt, 0), S("while", S("<", cnt, k), S("def", i, S("+", cnt, r.range(0, 4))), *body, S("++", cnt)))
+        if kind == "for":
+            return S("for", i, 0, k, *body)
+        if kind == "each":
+            return S("each", i, B(*[r.range(1, 9) for _ in range(k)]), *body)
+        if kind == "loop":
+            return S("loop", B(i, Kw("range"), B(0, k)), *body)
+        if kind == "loop2":
+            return S("loop", B(i, Kw("range"), B(0, k), j, Kw("in"), B(*[r.range(10, 40) for _ in range(2)])), *body)
+        return S("seq", B(i, Kw("range"), B(0, k)), *body, i)
+
     # ------------------------------------------------------------------ statements
     def loop_body(self, inner, d):
         r = self.r
@@ -616,6 +706,8 @@ class Gen:
             form, nm, ty = self.deffn(sc, d)
             sc.vars[nm] = (ty, False)
             return form
+        if c < 40 and r.chance(1, 2):
+            return self.nested_closure_loops(sc, d)
         if c < 40:
             # closures created in a loop, each capturing the loop variable and an outer mutable
             self.features.add("closures-in-loop")
